@@ -30,7 +30,7 @@ def gen(ctx):
             for sh in ((0,), (3,), (2, 2), (0, 3), (2, 1, 3)):
                 n = 3 if ctx.quick else 6
                 for _ in range(1 if ctx.quick else 3):
-                    letters = [r.choice(['a1', 'aod', 'a2l', 'it2', 'set', 't-1', 't1', 'tni', 'ms', 'mc', 'ro', 'abad', 'abad0', 'a0d', 'itbad', 'asw', 'itl'])
+                    letters = [r.choice(['a1', 'aod', 'a2l', 'it2', 'set', 't-1', 't1', 'tni', 'ms', 'mc', 'ro', 'abad', 'abad0', 'a0d', 'itbad', 'itraise', 'asw', 'itl'])
                                for _ in range(n)]
                     cases.append(history_case(r, nt, bo, sh, letters,
                                               metadata=r.choice([None, {'a': 1}]),
